@@ -1419,17 +1419,21 @@ def r09_11(ctx):
     # stores to state.remaining_length ahead of the op loop that are not inside a loop of their own: the last word on
     # the initial value
     finals = []
-    for d in an.defs_of[state]:
-        if d.kind != 'assign' or d.bb in op_blocks or d.bb not in cfg.reach:
-            continue
-        st = b.blocks[d.bb]['st'][d.idx]
-        pr = st['p']['pr']
-        if d.partial and pr and pr[-1].get('n') == 'remaining_length' and d.bb not in in_pre_loop and cfg.dominates(d.bb, op_header):
-            finals.append((d, st))
+    # the state may be prepared in a local of its own (an extracted and re-inlined helper) and copied into the running one
+    ds_locals = [l for l in an.defs_of if b.local_ty(l).endswith('DashState')]
+    for l in ds_locals:
+        for d in an.defs_of[l]:
+            if d.kind != 'assign' or d.bb in op_blocks or d.bb not in cfg.reach:
+                continue
+            st = b.blocks[d.bb]['st'][d.idx]
+            pr = st['p']['pr']
+            if d.partial and pr and pr[-1].get('n') == 'remaining_length' and d.bb not in in_pre_loop and cfg.dominates(d.bb, op_header):
+                finals.append((d, st))
     if not ctx.check(len(finals) >= 1, R, key + '|initial rest', b.loc(), 'store of the initial remaining length found',
                      'cannot find the statement that leaves the rest of the starting entry in the dash state ahead of the op loop (fail closed)'):
         return
-    finals.sort(key=lambda x: (cfg.rpo_index(x[0].bb) if hasattr(cfg, 'rpo_index') else x[0].bb, x[0].idx))
+    # the last one on the way to the op loop: the one every other candidate dominates
+    finals.sort(key=lambda x: sum(1 for y in finals if cfg.dominates(y[0].bb, x[0].bb) and (y[0].bb != x[0].bb or y[0].idx <= x[0].idx)))
     d, st = finals[-1]
     rv = st['rv']
     loc = b.loc(st.get('sp'))
